@@ -57,6 +57,7 @@ fn main() {
         "C09" => conv::c09(thorough, replay),
         "C10" => scopemc::c10(thorough, replay),
         "C12" => dbgmc::c12(thorough, replay),
+        "C13" => progmc::c13(thorough, replay),
         "C14" => crashmc::c14(thorough, replay),
         "C15" => parsemc::c15(thorough, replay),
         "C20" => valmc::c20(thorough, replay),
